@@ -551,6 +551,7 @@ Proof.
   - apply ri_clause. apply step_ri; assumption.
   - free_rest.
   - free_rest.
+  - free_rest.
   - rewrite <- (step_cfg (s_cfg s) s e eq_refl). apply IH; [apply step_ri | apply step_lb]; assumption.
 Qed.
 
